@@ -79,6 +79,22 @@ CHECKS = {
         "property-based testing: enumerated request/key-shape table + proptest histories against a reference model with $SYS attribution",
         "DESIGN.md §5 C08",
     ),
+    "C09": (
+        "core+persist",
+        "exploration",
+        "Round-trip search through the real flush procedure and the real loader chain: 12 k (thorough 400 k) generated directories - 1-3 snapshots of 0-6 entries (nested JSON with raw-bit floats, format colliders, u64-boundary CAS versions) and 0-3 clients' registrations, in layout v3 (real flush), v2 and v1 (laid out by the harness in the names/formats those loaders read; both selector states; other slot empty or older) - loaded into a fresh core whose full read-back (values, kinds, versions, ls structure, entry count, nothing under $SYS) must equal the last snapshot with its registrations applied. A second part includes the trigger shapes of listed known findings.",
+        "v2/v1 directory layouts are reconstructed from the loaders (no writer for them exists any more). Registrations whose result depends on the order of clients are not generated. D10 ({\"Cas\":[v,n]} plain value) is a listed known finding.",
+        "property-based testing: proptest round-trip (flush -> load) against a reference model, differential over three on-disk layouts",
+        "DESIGN.md §5 C09",
+    ),
+    "C10": (
+        "core+persist+crash hook",
+        "fault_enumeration",
+        "Fault enumeration over the flush procedure: every crash point (22: each file-system step of a flush incl. slot invalidation and selector move; *.tmp files additionally torn) of every flush in histories of 1-4 (thorough 5) flushes of pairwise distinct states with distinct registrations, x 4 follow-ups (restart, restart twice, restart+flush+restart, restart+crash again+restart) - 456 enumerated crash runs - plus 3 k random crash/restart/flush histories. After every restart the served state must be the last completed snapshot or the in-progress one (each with its own registrations applied) and repeated restarts must be idempotent.",
+        "Process-crash model of the property: a crash = early return at a crash point (cargo feature verif) between two file operations; completed operations persist in order; only *.tmp can be torn. The list of crash points is taken from the trace of an undisturbed flush, so a new file operation without a crash point is not covered automatically.",
+        "fault injection with exhaustive crash-point enumeration + proptest crash/restart histories, oracle = 'last completed or in progress' over reference-model snapshots",
+        "DESIGN.md §5 C10",
+    ),
 }
 
 NOT_YET = "check not built yet in this round of the build phase (work in progress, see DESIGN.md §5)"
